@@ -11,7 +11,8 @@ ENGINE = 'E1 choice-point explorer, deviation-bounded over {full, bare} default 
 RULE = ("same lattice as C04 with value palettes per attribute kind (ints at code edges, floats incl. -0.0, inf, NaN, "
         "max, subnormal, numpy scalars; ASCII lengths 0..300; IDENT up to 255; aware/naive datetimes and both string "
         "formats; enum members and free strings; references) x assignment route {keyword, dict, AttrSetup, later "
-        ".value/.units, set_attributes}; non-trivial = file written and every object of the logical file compared "
+        ".value/.units, set_attributes}; plus, per attribute, a chain write -> re-assign to every value option in turn -> "
+        "write, each file compared with the model; non-trivial = file written and every object of the logical file compared "
         "attribute by attribute with the model")
 ASSUMPTIONS = ["strict reader mc/rp66.py", "reference model mc/model.py and schema mc/schema.py (labels, kinds, fixed "
                "codes from RP66 V1 ch.5/6)", "units of a value-less attribute are not required in the file",
@@ -31,8 +32,58 @@ def bounds(tier):
     return {'deviation_bound': 1 if tier == 'quick' else 2, 'kinds': len(KINDS), 'routes': lattice.ROUTES}
 
 
+def reassign_chain(sp, info, shard, kw):
+    """Write once, then re-assign attribute ``kw`` of the object under test to each of its value options in turn
+    (values of other kinds included: numbers after text, a reference after text, a date-time after a float ...),
+    writing and checking the file after every assignment."""
+    import os
+    from mc.engine import scratch_dir
+    from mc.schema import attr_by_kw
+    kind = shard['kind']
+    ad = attr_by_kw(kind, kw)
+    b = S.build(sp)
+    if b.failed_at is not None:
+        return Outcome('build-raised', [], False)
+    path = os.path.join(scratch_dir(), 'c05-chain.dlis')
+    wkw = S.write_kwargs(sp, b)
+    try:
+        b.df.write(path, **wkw)
+    except Exception as e:  # noqa
+        return Outcome('write-raised', [], False, digest=str(e)[:40])
+    viol = []
+    ops = list(sp['ops'])
+    n_ok = 0
+    for opt in lattice.options(kind, ad, 'quick'):
+        op = {'op': 'set', 'h': 'T', 'attr': ad.attr, 'part': 'value', 'value': opt}
+        if S.apply_op(b, op) != 'ok':
+            continue
+        ops = ops + [op]
+        try:
+            b.df.write(path, **wkw)
+        except Exception:  # noqa
+            continue            # an invalid combination may be refused; the next assignment must still come out right
+        n_ok += 1
+        try:
+            lfs = R.split_logical_files(R.parse_physical(open(path, 'rb').read()))
+            m = M.Model(dict(sp, ops=ops))
+            for code, d in M.check_inventory(m, m.lfs[0], lfs[0]) + M.check_attrs(m, m.lfs[0], lfs[0]):
+                viol.append((f"C05:{code}:after-reassignment", f"{d[:300]} | kind={kind} attribute={kw} re-assigned to "
+                                                               f"{repr(opt)[:60]} after earlier writes"))
+        except R.FormatError as e:
+            viol.append((f"C05:unparsable:{e.code}:after-reassignment", f"{e} | kind={kind} attribute={kw}"))
+        if viol:
+            break
+    return Outcome(f"reassigned:{min(n_ok, 5)}", viol, n_ok > 0, digest=str(n_ok))
+
+
 def body(ctx, shard):
     sp, info = lattice.build_spec(shard['kind'], shard['mode'], ctx, 'quick')
+    cand = [ad.kw for ad in lattice.settable(shard['kind']) if ad.kw in info['assigned']
+            and not (shard['kind'] == 'frame' and ad.kw == 'channels')
+            and not (shard['kind'] == 'origin' and ad.kw == 'file_set_number')]
+    re_kw = ctx.choose('reassign-after-write', [None] + cand)
+    if re_kw is not None:
+        return reassign_chain(sp, info, shard, re_kw)
     res = S.run_spec(sp)
     if res['failed_at'] is not None:
         return Outcome('build-raised', [], False, digest=res['status'][-1][:50])
